@@ -35,6 +35,14 @@ Extension pass (second half of this file): minimality of the image, Galilean inv
 `calculate` raises / returns and how many values, the Cremer–Pople sums of `Puckering`, what the
 constructors and `create_orderparameter` refuse, `calculate_order` and `Path.reverse` end to end
 (models: `Model/GeomCtor.lean`, `Model/GeomFlow.lean`; lemmas `Lemmas/GeomMin|GeomTotal|GeomFlow.lean`).
+
+Follow-up pass (end of this file; model `Model/GeomFrames.lean`, lemmas `Lemmas/GeomFrames.lean`): the System states the
+LIBRARY makes.  Every `Path.reverse` statement of the earlier passes is about HAND-BUILT frames (frames carrying arrays);
+engine-made frames have `pos = vel = None`, loaded ones empty arrays, and there `Path.reverse` with a velocity-dependent
+function raises (`pathReverse_engine_made_raises`, `pathReverse_loaded_raises`).  Also: 3×3 boxes (`calculate_box2D`),
+rotation invariance whenever no box is applied + the counterexample that shows the guard is needed
+(`rotation_invariant_nobox`, `rotation_periodic_counterexample`), the base class's `velocity` key
+(`create_base_velocity_flag`).  `calculate_pure` is true by construction (see its doc string): purity is tie-only.
 -/
 namespace Infretis.C20
 open Infretis.Geom
@@ -206,7 +214,8 @@ example : (calculateOrder .asIs (.velocity 1 1) true none exSys.pos exSys.vel ex
     (calculateOrder .asIs (.velocity 1 1) false none exSys.pos exSys.vel exSys.box).1 = .ok [1] := by
   constructor <;> decide +kernel
 
-/-! ### `Path.reverse` -/
+/-! ### `Path.reverse` (HAND-BUILT frames: frames that carry position/velocity arrays — the library makes none;
+    for the frames it does make see the follow-up pass at the end of this file) -/
 
 theorem negHead_negHead (l : List ℚ) : negHead (negHead l) = l := by
   cases l with
@@ -380,7 +389,11 @@ example : value .asIs (.puckering 0 1 2 3 4 5 false) (rotate exRot exSys)
 /-- **Computing an order parameter does not modify the system**: every in-place numpy statement
     of the six `calculate` methods targets a fresh array (binary-operation result, `np.zeros`
     or an advanced-indexing copy), never a view of `system.pos/vel/box`, and no attribute is
-    assigned. -/
+    assigned.
+    HONEST LABEL: this theorem is TRUE BY CONSTRUCTION — the labels `fresh` in `Geom.effects` are asserted by
+    hand while reading the code, nothing derives them from it — so it carries no assurance of its own.  The purity
+    clause is TIE-ONLY: identity + content snapshot of every System attribute around every `calculate`, and the
+    per-class comparison of the changed fields with `Geom.effects` (driver `effects`). -/
 theorem calculate_pure (var : Variant) (op : OP) (s : Sys) : (calculate var op s).2 = s := by
   cases op <;> rfl
 
@@ -870,7 +883,8 @@ theorem calculateOrderFull_missing_blocks (var : Variant) (op : OP) (s : SysF) (
   rw [calculateOrderFull_eq]
   simp [coPos, coVel, coBox]
 
-/-! ### `Path.reverse` as a whole -/
+/-! ### `Path.reverse` as a whole (HAND-BUILT frames carrying arrays; library frames: `pathReverse_engine_made_raises`,
+    `pathReverse_loaded_raises`, `pathReverse_library_no_recompute` in the follow-up pass) -/
 
 /-- mirror image with toggled flags: what `Path.reverse` builds before any recomputation -/
 def mirrored (revV : Bool) (frames : List PFrame) : List PFrame :=
@@ -1074,6 +1088,18 @@ theorem pathReverse_ok_needs_arrays (var : Variant) (op : OP) (maxlen : Option N
   unfold pathReverseL at h
   simp only [Bool.and_self, if_true] at h
   exact mapM_ok_forall _ _ (fun a b hab => recomputeLFrame_ok_arrays var op a b hab) _ out h
+
+/-- **One frame**: on an engine-made frame EVERY built-in `calculate` raises TypeError (all six subscript `system.pos` /
+    `system.vel` first), on a loaded frame IndexError — whatever the indices, the periodic flag and the box. -/
+theorem calculate_on_library_frames (var : Variant) (op : OP) (f : LFrame) :
+    (f.arrays = none → calcFrame var op f = .error .typeError) ∧
+    (f.arrays = some ([], []) → calcFrame var op f = .error .index) :=
+  ⟨calcFrame_noArrays var op f, calcFrame_empty var op f⟩
+
+example : (snapshotToSystem (.flat [4, 4, 4]) [1] false).arrays = none ∧ (loadedFrame [1] false).arrays = some ([], []) ∧
+    calcFrame Variant.current (.puckering 0 1 2 3 4 5 true) (snapshotToSystem (.flat [4, 4, 4]) [1] false) = .error .typeError ∧
+    calcFrame Variant.current (.distance 0 1 true) (loadedFrame [1] false) = .error .index := by
+  refine ⟨?_, ?_, ?_, ?_⟩ <;> decide +kernel
 
 /-- three engine-made frames (orders 1, 2, 3 of `Velocity(0,'x')`, 3-component box) and three loaded ones -/
 def enginePath : List LFrame :=
